@@ -407,6 +407,16 @@ def check_algebra(case):
                 r, t = held.pop(op[1] % len(held))
                 mdd.decref(r)
                 ledger[abs(r)] -= 1
+        elif kind == 'decref_zero':
+            # releasing a node whose count is already 0 (a temporary that
+            # was never referenced) is documented to do nothing
+            zeros = sorted(u_ for u_, c_ in mdd._ref.items()
+                           if c_ == 0 and u_ != 1)
+            if zeros:
+                z = zeros[op[1] % len(zeros)]
+                mdd.decref(z if op[1] % 2 else -z)
+                require(mdd.ref(z) == 0, 'mdd.decref_below_zero',
+                        dict(u=z, ref=mdd.ref(z)))
         elif kind == 'gc':
             mdd.collect_garbage()
             roots = [u for u, c in ledger.items() if c > 0]
@@ -523,6 +533,7 @@ def run_algebra(spec, out):
             st.tuples(st.just('gc_roots'), st.integers(0, 4095),
                       st.integers(0, 3)),
             st.tuples(st.just('rebuild'), st.integers(0, 9)),
+            st.tuples(st.just('decref_zero'), st.integers(0, 99)),
         ).map(list)
         return dict(
             kind='algebra', doms=doms,
